@@ -48,6 +48,9 @@ namespace storage
 /// Values can be up to 100 * 1024 * 1024 bytes in size.
 static constexpr size_t MAX_KEY_LENGTH = 65535;
 static constexpr size_t MAX_VALUE_LENGTH = 100 * 1024 * 1024;
+/// Upper bound for one log record: op(1) + keyLen(4) + key + expiry(8) + valLen(4) + value + crc(4).
+/// load() must accept every record that set() can write, including a value of MAX_VALUE_LENGTH bytes.
+static constexpr size_t MAX_LOG_ENTRY_LENGTH = 1 + 4 + (MAX_KEY_LENGTH + 1) + 8 + 4 + MAX_VALUE_LENGTH + 4;
 
 /// Configuration options for KVStore
 struct KVStoreConfig
@@ -1410,7 +1413,7 @@ private:
     {
       uint32_t totalLen = 0;
       if (!log.read(reinterpret_cast<char *>(&totalLen), sizeof(totalLen)) || totalLen < 10 ||
-          totalLen > 100 * 1024 * 1024)
+          totalLen > MAX_LOG_ENTRY_LENGTH)
       {
         break; // Invalid or corrupted entry
       }
